@@ -4,7 +4,7 @@ from ..oracles import c18
 MODELS = ["Drag"]
 STREAMS = [drag.stream_viscous, drag.stream_wave]
 ORACLES = [c18.oracle_components, c18.oracle_mesh_independence, c18.oracle_option_combinations]
-UNPROVED = ["CDv decreasing in Reynolds number for mixed laminar/turbulent surfaces (0 < k_lam < 1): proved only for k_lam = 0 and k_lam = 1 (C18_CDv_decreasing_in_Re_partial); the mixed case is validated by the oracle's Reynolds sweeps"]
+UNPROVED = ["the mixed case 0 < k_lam < 1 of 'CDv decreases with Reynolds number' is proved (mean value theorem, Real/DragMixed.v) under ln(Re_c k_lam) >= 3.58, i.e. a laminar-run chord Reynolds number above about 36; the property quantifies over > 1e3 (C18_mixed_hypothesis_met_at_1e3); below that bound the statement is not decided"]
 ASSUMPTIONS = [
     "theorems over R with Rpower for x**y; models tied to ViscousDrag / WaveDrag / TotalDrag by differential execution over k_lam in {0, 0.05, 0.5, 0.999, 1}, symmetric and not, options on/off, M placed on both sides of the onset with a 1e-2 margin",
     "the model family has two defect switches (dCDv/dre = 0 for k_lam >= 1; CDw doubled for symmetric surfaces); which member the code is, is decided by the stream on every run; both are findings of C01 / C04, not of C18 (positivity, monotonicity, onset and mesh independence hold for both members)",
